@@ -144,6 +144,7 @@ partial def sexpScript : Sexp → Option Script
   | .list [.atom "const", v] => (sexpValue v).map Script.const
   | .list [.atom "arg", .atom i] => i.toNat?.map Script.arg
   | .list [.atom "err"] => some .err
+  | .list [.atom "errnum"] => some .err
   | .list [.atom "panic"] => some .panic
   | .list [.atom "log", .atom tag, s] => (sexpScript s).map (Script.log tag)
   | .list [.atom "bi", .atom h] => (unhex h).map Script.bi
